@@ -131,7 +131,7 @@ int for_each_behaviour(std::string const& path, std::size_t skip
 		{
 			// wall-clock limit per behaviour: a run that blocks (e.g. a handler invoked while a lock is held)
 			// ends this process; the driver reports the behaviour and resumes with the next one
-			static long const case_limit = std::getenv("VH_CASE_LIMIT") ? std::atol(std::getenv("VH_CASE_LIMIT")) : 90;
+			static long const case_limit = std::getenv("VH_CASE_LIMIT") ? std::atol(std::getenv("VH_CASE_LIMIT")) : 180;
 			static std::time_t const deadline = std::getenv("VH_WALL_LIMIT") ? std::time(nullptr) + std::atol(std::getenv("VH_WALL_LIMIT")) : 0;
 			long lim = case_limit;
 			if (deadline) { long const rest = long(deadline - std::time(nullptr)); if (rest < lim) lim = rest < 1 ? 1 : rest; }
